@@ -171,6 +171,8 @@ theorem parseOne_imported (cfg : Cfg) (fs : FS) (fuel : Nat) (stack : List APath
             have h1 := doLoads_imported cfg fs (parseOne cfg fs n) (fun s f sp st r st' hh => ih s f sp st r st' hh) _ _ _ _ _ _ _ _ hd
             have h2 := finishFile_imported _ _ _ _ _ _ _ h
             exact ⟨fun p hp => by rw [h2]; exact h1.1 p hp, fun hn => by rw [h2]; exact h1.2 hn⟩
+    · simp only [Except.ok.injEq, Prod.mk.injEq] at h
+      rw [← h.2]; exact ImpInv.refl _
     · cases h
 
 theorem parseOne_imported_mono (cfg : Cfg) (fs : FS) (fuel : Nat) (stack : List APath) (file spelled : APath) (st : PState)
@@ -298,6 +300,7 @@ theorem parseOne_fuel_sufficient (cfg : Cfg) (fs : FS) (fuel : Nat) (stack : Lis
             exact doLoads_fuel cfg fs (parseOne cfg fs n) n (fun s f sp st r st' hh => parseOne_imported cfg fs n s f sp st r st' hh)
               (fun s f sp st hlt => ih s f sp st hlt) _ _ _ _ _ _ (by omega) hd
           · exact finishFile_not_outOfFuel _ _ _ _ _
+    · intro h; cases h
     · intro h; cases h
 
 theorem remaining_le (fs : FS) (imp : List APath) : remaining fs imp ≤ fs.files.length := by
